@@ -297,6 +297,80 @@ func C03Repo(ctx context.Context, run *common.Run, nScenarios int) {
 		}
 	})
 	_ = rand.Int
+	if run.Tier == "thorough" {
+		c03Reattached(ctx, run)
+	}
+}
+
+// c03Reattached (thorough tier; the fixture repository starts from a mocked base that Clean cannot
+// consolidate, so this history is built from genesis with made-up headers, checks off, split
+// protection on): three branches reach height 556766 -- the root chain, a fork B with more work
+// (the best chain) and a fork C -- Clean re-attaches the root chain's rest and C under the new main
+// branch, and then no header may be accepted at 556767 on any of the three tips.
+func c03Reattached(ctx context.Context, run *common.Run) {
+	common.ParallelFor(3, 3, func(vi int) {
+		rng := common.Rng(run.Seed, int64(7900+vi))
+		repo := headers.NewRepository(headers.DefaultConfig(), common.NewMemStore())
+		repo.DisableDifficulty()
+		repo.InitializeWithGenesis()
+		type pt struct {
+			hash bitcoin.Hash32
+			ts   uint32
+		}
+		g := hdr.MainGenesis()
+		chain := []pt{{*g.BlockHash(), g.Timestamp}}
+		extend := func(from pt, n int, bits uint32) (pt, bool) {
+			for i := 0; i < n; i++ {
+				hd := &wire.BlockHeader{Version: 1, PrevBlock: from.hash, Timestamp: from.ts + 600, Bits: bits, Nonce: rng.Uint32()}
+				rng.Read(hd.MerkleRoot[:])
+				if err := repo.ProcessHeader(ctx, hd); err != nil {
+					run.Inconclusive("reattached-forks: build: " + err.Error())
+					return from, false
+				}
+				from = pt{*hd.BlockHash(), hd.Timestamp}
+			}
+			return from, true
+		}
+		tip := chain[0]
+		for h := 1; h <= splitHeight-1; h++ {
+			var ok bool
+			if tip, ok = extend(tip, 1, 0x1d00ffff); !ok {
+				return
+			}
+			chain = append(chain, tip)
+		}
+		kb := 6 + rng.Intn(8)
+		bTip, ok := extend(chain[splitHeight-1-kb], kb, 0x1c00ffff)
+		if !ok || repo.LastHash() != bTip.hash {
+			run.Inconclusive("reattached-forks: fork B did not become the best chain")
+			return
+		}
+		kc := 2 + rng.Intn(kb-2)
+		cTip, ok := extend(chain[splitHeight-1-kc], kc, 0x1d00ffff)
+		if !ok {
+			return
+		}
+		if err := repo.Clean(ctx); err != nil {
+			run.Violate(common.Violation{Clause: "maintenance", Signature: "clean-fails-at-split/reattached-forks", Detail: err.Error()})
+			return
+		}
+		for name, p := range map[string]pt{"root-chain-tip": chain[splitHeight-1], "fork-b-tip": bTip, "fork-c-tip": cTip} {
+			for i := 0; i < 10; i++ {
+				hd := &wire.BlockHeader{Version: 0x20000000, PrevBlock: p.hash, Timestamp: p.ts + 600, Bits: 0x1d00ffff, Nonce: rng.Uint32()}
+				rng.Read(hd.MerkleRoot[:])
+				var err error
+				pan := safe(func() { err = repo.ProcessHeader(ctx, hd) })
+				run.Eval(1)
+				run.DistinctStr("reattached-forks/" + name + "/" + classify(err))
+				if pan != "" || err == nil {
+					run.Violate(common.Violation{Clause: "only-bsv-split-header-accepted-at-split-height", Signature: "non-bsv-header-accepted-at-split-height/reattached-forks/" + name,
+						Detail:  fmt.Sprintf("a made-up header was accepted at height %d on the %s after Clean re-attached the branches (panic=%q)", splitHeight, name, pan),
+						Witness: map[string]interface{}{"kind": "split-scenario", "mode": "reattached-forks-after-clean", "branch": name, "fork_b_length": kb, "fork_c_length": kc, "seed": run.Seed}})
+					break
+				}
+			}
+		}
+	})
 }
 
 // RunC03 runs the repository-side scenarios (the peer-side part is added by the net package).
